@@ -23,10 +23,15 @@ structure ArithSem (V : Type) extends OpSem V where
   smul_sum : ∀ a (l : List V), smul a (l.foldr add zero) = (l.map (smul a)).foldr add zero
   /-- which operands are invertible (a diagonal operator with a zero entry is not: finding F13) -/
   invertible : Op → Prop
-  /-- a lazy inverse of an INVERTIBLE operand undoes it, both ways -/
+  /-- a lazy inverse of an INVERTIBLE operand undoes it, both ways.  `QURotationTransposeOperator` is a lazy
+  inverse of rotations only (its denotation is the TRANSPOSE of its operand, which inverts an orthogonal operand
+  but not, say, `2·I`): the law is asked of `.qurotT` wrappers around a `QURotationOperator` only, which is what
+  the constructor guarantees (`WrapOK`). -/
   inv_left : ∀ u k o, invertible o → (k = .inverse ∨ k = .qurotT ∨ k = .diagInv) →
+    (k = .qurotT → o.isQURot = true) →
     ∀ x, mem (Op.inS o) x → den (.wrap u k o) (den o x) = x
   inv_right : ∀ u k o, invertible o → (k = .inverse ∨ k = .qurotT ∨ k = .diagInv) →
+    (k = .qurotT → o.isQURot = true) →
     ∀ x, mem (Op.inS (.wrap u k o)) x → den o (den (.wrap u k o) x) = x
 
 namespace ArithSem
@@ -60,10 +65,26 @@ refuses non-square operands, rotations and diagonal operators are square) -/
 def LazySquare (o : Op) : Prop :=
   ∀ u k o', o = .wrap u k o' → (k = .inverse ∨ k = .qurotT ∨ k = .diagInv) → Op.inS o' = Op.outS o'
 
+/-- a `QURotationTransposeOperator` wraps a `QURotationOperator` (guaranteed by its constructor; part of `WrapOK`) -/
+def LazyRot (o : Op) : Prop :=
+  ∀ u k o', o = .wrap u k o' → k = .qurotT → o'.isQURot = true
+
 /-- the operand of a lazy inverse is invertible (this is the hypothesis finding F13 violates: the
-pseudo-inverse of a singular diagonal operator is a lazy-inverse object too) -/
+pseudo-inverse of a singular diagonal operator is a lazy-inverse object too), and the lazy inverse
+`QURotationTransposeOperator` wraps a rotation (`LazyRot`; the hypothesis under which `ArithSem.inv_left` /
+`inv_right` speak about `.qurotT` wrappers) -/
 def LazyInvertible (A : ArithSem V) (o : Op) : Prop :=
-  ∀ u k o', o = .wrap u k o' → (k = .inverse ∨ k = .qurotT ∨ k = .diagInv) → A.invertible o'
+  ∀ u k o', o = .wrap u k o' → (k = .inverse ∨ k = .qurotT ∨ k = .diagInv) →
+    A.invertible o' ∧ (k = .qurotT → o'.isQURot = true)
+
+theorem LazyInvertible.lazyRot {A : ArithSem V} {o : Op} (h : A.LazyInvertible o) : LazyRot o :=
+  fun u k o' he hk => (h u k o' he (.inr (.inl hk))).2 hk
+
+/-- `LazyInvertible` from its two components -/
+theorem LazyInvertible.mk' {A : ArithSem V} {o : Op}
+    (hinv : ∀ u k o', o = .wrap u k o' → (k = .inverse ∨ k = .qurotT ∨ k = .diagInv) → A.invertible o')
+    (hrot : LazyRot o) : A.LazyInvertible o :=
+  fun u k o' he hk => ⟨hinv u k o' he hk, hrot u k o' he⟩
 
 theorem wrap_inS_sq (u : Nat) (k : WrapCls) (o : Op) (h : Op.inS o = Op.outS o) :
     Op.inS (.wrap u k o) = Op.inS o := by
@@ -94,7 +115,7 @@ theorem baseMatmul_den (a b r : Op) (hb : LazySquare b) (hbi : A.LazyInvertible 
         refine ⟨hs', ?_, ?_, fun x hx => ?_⟩
         · rw [hin]; simp [mkIdentity, Op.inS]
         · rw [← hsq]; simp [mkIdentity, Op.outS]
-        · rw [A.inv_right u k a (hbi u k a rfl hk) hk x hx]
+        · rw [A.inv_right u k a (hbi u k a rfl hk).1 hk (hbi u k a rfl hk).2 x hx]
           exact A.mkIdentity_den _ x (by rw [← hin]; exact hx)
       · simp only [hl, if_false, Bool.false_eq_true, Except.ok.injEq, Option.some.injEq] at h
         subst h
@@ -107,6 +128,16 @@ theorem baseMatmul_den (a b r : Op) (hb : LazySquare b) (hbi : A.LazyInvertible 
 of a lazy inverse is square -/
 def WFtop (o : Op) : Prop :=
   LazySquare o ∧ (∀ u ops, o = .comp u ops → ops ≠ []) ∧ (∀ u td ops, o = .cont u .add td ops → ops ≠ [])
+
+/-- structural well-formedness implies the top-level conditions -/
+theorem WFtop_of_StructOK (o : Op) (h : StructOK o) : WFtop o := by
+  refine ⟨?_, ?_, ?_⟩
+  · intro u k o' he hk; subst he
+    exact (((StructOK_wrap_iff _ _ _).mp h).2.1 hk).1
+  · intro u ops he; subst he
+    exact ((StructOK_comp_iff _ _).mp h).1
+  · intro u td ops he; subst he
+    exact ((StructOK_cont_iff _ _ _ _).mp h).1
 
 theorem inSLast_append (xs ys : List Op) (h : ys ≠ []) : inSLast (xs ++ ys) = inSLast ys := by
   induction xs with
@@ -124,15 +155,19 @@ theorem outSHead_append (xs ys : List Op) (h : xs ≠ []) : outSHead (xs ++ ys) 
 theorem inSLast_singleton_append (xs : List Op) (b : Op) : inSLast (xs ++ [b]) = Op.inS b := by
   rw [inSLast_append _ _ (by simp)]; rfl
 
-/-- **`a @ b` denotes the product of the maps**, with every construction-time shortcut (flattening of
-compositions on either side, identity absorption, merging of scalar factors, `A.I @ A` and `A @ A.I`
-collapsing to the identity), and the result has the structures of the product. -/
-theorem pyMatmul_den (a b r : Op) (ha : WFtop a) (hb : WFtop b)
+/-- `a @ b`: the result has the structures of the product (no semantic hypothesis on the operands), and denotes
+the product of the maps as soon as the right operand `b` is honest (maps its input space into its output space;
+`OpSem.honest` gives this for a structurally well-formed `b`, see `pyMatmul_den`). -/
+theorem pyMatmul_den_core (a b r : Op) (ha : WFtop a) (hb : WFtop b)
     (hai : A.LazyInvertible a) (hbi : A.LazyInvertible b) (h : pyMatmul a b = .ok r) :
     Op.inS a = Op.outS b ∧ Op.inS r = Op.inS b ∧ Op.outS r = Op.outS a ∧
-    ∀ x, A.mem (Op.inS b) x → A.den r x = A.den a (A.den b x) := by
+    ((∀ x, A.mem (Op.inS b) x → A.mem (Op.outS b) (A.den b x)) →
+      ∀ x, A.mem (Op.inS b) x → A.den r x = A.den a (A.den b x)) := by
   -- the generic path through `baseMatmul`, including the reflected `CompositionOperator.__rmatmul__`
-  have generic : ∀ (hm : matmulOf a b = baseMatmul a b), _ := fun hm => by
+  have generic : ∀ (hm : matmulOf a b = baseMatmul a b),
+      Op.inS a = Op.outS b ∧ Op.inS r = Op.inS b ∧ Op.outS r = Op.outS a ∧
+      ((∀ x, A.mem (Op.inS b) x → A.mem (Op.outS b) (A.den b x)) →
+        ∀ x, A.mem (Op.inS b) x → A.den r x = A.den a (A.den b x)) := fun hm => by
     unfold pyMatmul at h
     rw [hm] at h
     cases hbm : baseMatmul a b with
@@ -141,7 +176,8 @@ theorem pyMatmul_den (a b r : Op) (ha : WFtop a) (hb : WFtop b)
       cases res with
       | some r' =>
         simp only [hbm, Except.ok.injEq] at h; subst h
-        exact A.baseMatmul_den a b r' hb.1 hbi hbm
+        obtain ⟨h1, h2, h3, h4⟩ := A.baseMatmul_den a b r' hb.1 hbi hbm
+        exact ⟨h1, h2, h3, fun _ => h4⟩
       | none =>
         simp only [hbm] at h
         -- NotImplemented: b is a composition, structures already checked
@@ -154,7 +190,7 @@ theorem pyMatmul_den (a b r : Op) (ha : WFtop a) (hb : WFtop b)
             have hne := hb.2.1 u ops rfl
             simp only [hs'.symm, bne_self_eq_false, Bool.false_eq_true, if_false, Except.ok.injEq] at h
             subst h
-            refine ⟨hs', ?_, ?_, fun x _ => ?_⟩
+            refine ⟨hs', ?_, ?_, fun _ x _ => ?_⟩
             · cases ops with
               | nil => exact absurd rfl hne
               | cons o os => simp [mkComp, Op.inS, inSLast]
@@ -175,25 +211,25 @@ theorem pyMatmul_den (a b r : Op) (ha : WFtop a) (hb : WFtop b)
       | comp u' ops' =>
         have hne' := hb.2.1 u' ops' rfl
         simp only [Except.ok.injEq] at h; subst h
-        refine ⟨hs', ?_, ?_, fun x _ => ?_⟩
+        refine ⟨hs', ?_, ?_, fun _ x _ => ?_⟩
         · simp only [mkComp, Op.inS]; exact inSLast_append _ _ hne'
         · simp only [mkComp, Op.outS]; exact outSHead_append _ _ hne
         · simp only [mkComp, A.comp_law, Sem.app_append]
       | leaf u' c p =>
         simp only [Except.ok.injEq] at h; subst h
-        refine ⟨hs', ?_, ?_, fun x _ => ?_⟩
+        refine ⟨hs', ?_, ?_, fun _ x _ => ?_⟩
         · simp only [mkComp, Op.inS]; exact inSLast_singleton_append _ _
         · simp only [mkComp, Op.outS]; exact outSHead_append _ _ hne
         · simp only [mkComp, A.comp_law, Sem.app_append, Sem.app, OpSem.toSem_den]
       | wrap u' k o =>
         simp only [Except.ok.injEq] at h; subst h
-        refine ⟨hs', ?_, ?_, fun x _ => ?_⟩
+        refine ⟨hs', ?_, ?_, fun _ x _ => ?_⟩
         · simp only [mkComp, Op.inS]; exact inSLast_singleton_append _ _
         · simp only [mkComp, Op.outS]; exact outSHead_append _ _ hne
         · simp only [mkComp, A.comp_law, Sem.app_append, Sem.app, OpSem.toSem_den]
       | cont u' k td os =>
         simp only [Except.ok.injEq] at h; subst h
-        refine ⟨hs', ?_, ?_, fun x _ => ?_⟩
+        refine ⟨hs', ?_, ?_, fun _ x _ => ?_⟩
         · simp only [mkComp, Op.inS]; exact inSLast_singleton_append _ _
         · simp only [mkComp, Op.outS]; exact outSHead_append _ _ hne
         · simp only [mkComp, A.comp_law, Sem.app_append, Sem.app, OpSem.toSem_den]
@@ -210,10 +246,10 @@ theorem pyMatmul_den (a b r : Op) (ha : WFtop a) (hb : WFtop b)
       obtain ⟨hk, rfl⟩ := hk
       have hsq : Op.inS o = Op.outS o := ha.1 u k o rfl hk
       have hin : Op.inS (Op.wrap u k o) = Op.inS o := wrap_inS_sq u k o hsq
-      refine ⟨by rw [hin, hsq], ?_, ?_, fun x hx => ?_⟩
+      refine ⟨by rw [hin, hsq], ?_, ?_, fun hhon x hx => ?_⟩
       · rw [hin]; simp [mkIdentity, Op.inS]
       · rw [hin, wrap_outS]; simp [mkIdentity, Op.outS]
-      · rw [A.inv_left u k o (hai u k o rfl hk) hk x hx]
+      · rw [A.inv_left u k o (hai u k o rfl hk).1 hk (hai u k o rfl hk).2 x hx]
         exact A.mkIdentity_den _ x (by rw [hin]; exact hx)
     · exact generic (by simp [matmulOf, hl])
   | leaf u c p =>
@@ -227,9 +263,9 @@ theorem pyMatmul_den (a b r : Op) (ha : WFtop a) (hb : WFtop b)
         subst h
         have hlaw := A.identity_law (Op.leaf u .identity p) (by simp [isIdentity, isLeafCls])
         have hsq := OpSem.identity_square (Op.leaf u .identity p) (by simp [isIdentity, isLeafCls])
-        refine ⟨hs', rfl, ?_, fun x hx => ?_⟩
+        refine ⟨hs', rfl, ?_, fun hhon x hx => ?_⟩
         · rw [← hsq]; exact hs'.symm
-        · have hm := A.honest b x hx
+        · have hm := hhon x hx
           rw [hlaw _ (by rw [hs']; exact hm)]
     · by_cases hh : c = .homothety
       · subst hh
@@ -248,14 +284,32 @@ theorem pyMatmul_den (a b r : Op) (ha : WFtop a) (hb : WFtop b)
             have hpa : Op.inS (Op.leaf u .homothety p) = p.inS := rfl
             have hsa := OpSem.homothety_square (Op.leaf u .homothety p) (by simp [isHomothety, isLeafCls])
             have hsb := OpSem.homothety_square b hbh
-            refine ⟨hs', ?_, ?_, fun x hx => ?_⟩
+            refine ⟨hs', ?_, ?_, fun hhon x hx => ?_⟩
             · rw [hI, ← hpa, hs', ← hsb]
             · rw [hO, ← hpa, hsa]
-            · have hm := A.honest b x hx
+            · have hm := hhon x hx
               rw [hla _ (by rw [hs']; exact hm), hlb x hx, A.smul_smul]
               exact A.mkHomothety_den _ _ x (by rw [← hpa, hs', ← hsb]; exact hx)
         · exact generic (by simp [matmulOf, hbh])
       · exact generic (by cases c <;> simp_all [matmulOf])
+
+/-- **`a @ b` denotes the product of the maps**, with every construction-time shortcut (flattening of
+compositions on either side, identity absorption, merging of scalar factors, `A.I @ A` and `A @ A.I`
+collapsing to the identity), and the result has the structures of the product.  The right operand is
+structurally well formed (`StructOK`: this is where its honesty, `OpSem.honest`, comes from). -/
+theorem pyMatmul_den (a b r : Op) (ha : WFtop a) (hb : WFtop b) (hbs : StructOK b)
+    (hai : A.LazyInvertible a) (hbi : A.LazyInvertible b) (h : pyMatmul a b = .ok r) :
+    Op.inS a = Op.outS b ∧ Op.inS r = Op.inS b ∧ Op.outS r = Op.outS a ∧
+    ∀ x, A.mem (Op.inS b) x → A.den r x = A.den a (A.den b x) :=
+  let ⟨h1, h2, h3, h4⟩ := A.pyMatmul_den_core a b r ha hb hai hbi h
+  ⟨h1, h2, h3, h4 (fun x hx => A.honest b x hbs hx)⟩
+
+/-- the structural half of `pyMatmul_den`: no well-formedness of the operands beyond `WFtop` is needed -/
+theorem pyMatmul_structs (a b r : Op) (ha : WFtop a) (hb : WFtop b)
+    (hai : A.LazyInvertible a) (hbi : A.LazyInvertible b) (h : pyMatmul a b = .ok r) :
+    Op.inS a = Op.outS b ∧ Op.inS r = Op.inS b ∧ Op.outS r = Op.outS a :=
+  let ⟨h1, h2, h3, _⟩ := A.pyMatmul_den_core a b r ha hb hai hbi h
+  ⟨h1, h2, h3⟩
 
 theorem WFtop_mkHomothety (v : Rat) (s : Struct) : WFtop (mkHomothety v s) := by
   refine ⟨?_, ?_, ?_⟩
@@ -267,27 +321,31 @@ theorem WFtop_mkHomothety (v : Rat) (s : Struct) : WFtop (mkHomothety v s) := by
 theorem lazyInvertible_mkHomothety (v : Rat) (s : Struct) : A.LazyInvertible (mkHomothety v s) := by
   intro u k o' h; simp [mkHomothety] at h
 
-theorem pyRmul_den (k : Rat) (a r : Op) (ha : WFtop a) (hai : A.LazyInvertible a) (h : pyRmul k a = .ok r) :
+theorem pyRmul_den (k : Rat) (a r : Op) (ha : WFtop a) (has : StructOK a) (hai : A.LazyInvertible a)
+    (h : pyRmul k a = .ok r) :
     Op.inS r = Op.inS a ∧ Op.outS r = Op.outS a ∧
     ∀ x, A.mem (Op.inS a) x → A.den r x = A.smul k (A.den a x) := by
-  obtain ⟨_, h2, h3, h4⟩ := A.pyMatmul_den _ a r (WFtop_mkHomothety k _) ha (A.lazyInvertible_mkHomothety k _) hai h
+  obtain ⟨_, h2, h3, h4⟩ := A.pyMatmul_den _ a r (WFtop_mkHomothety k _) ha has
+    (A.lazyInvertible_mkHomothety k _) hai h
   refine ⟨h2, ?_, fun x hx => ?_⟩
   · rw [h3]; exact (OpSem.mkHomothety_law k _).2.2.1
   · rw [h4 x hx]
-    exact A.mkHomothety_den k _ _ (A.honest a x hx)
+    exact A.mkHomothety_den k _ _ (A.honest a x has hx)
 
 /-- **`a / k`** (`k ≠ 0`) denotes the map divided by `k`. -/
-theorem pyTruediv_den (k : Rat) (a r : Op) (ha : WFtop a) (hai : A.LazyInvertible a) (h : pyTruediv a k = .ok r) :
+theorem pyTruediv_den (k : Rat) (a r : Op) (ha : WFtop a) (has : StructOK a) (hai : A.LazyInvertible a)
+    (h : pyTruediv a k = .ok r) :
     k ≠ 0 ∧ Op.inS r = Op.inS a ∧ Op.outS r = Op.outS a ∧
     ∀ x, A.mem (Op.inS a) x → A.den r x = A.smul (1 / k) (A.den a x) := by
   unfold pyTruediv at h
   split at h
   · simp at h
   · rename_i hk
-    exact ⟨hk, A.pyRmul_den (1 / k) a r ha hai h⟩
+    exact ⟨hk, A.pyRmul_den (1 / k) a r ha has hai h⟩
 
 /-- **`-a`** for an operator that is not a sum denotes minus the map -/
-theorem pyNeg_den (a r : Op) (ha : WFtop a) (hai : A.LazyInvertible a) (hns : a.isAdd = false) (h : pyNeg a = .ok r) :
+theorem pyNeg_den (a r : Op) (ha : WFtop a) (has : StructOK a) (hai : A.LazyInvertible a)
+    (hns : a.isAdd = false) (h : pyNeg a = .ok r) :
     Op.inS r = Op.inS a ∧ Op.outS r = Op.outS a ∧
     ∀ x, A.mem (Op.inS a) x → A.den r x = A.smul (-1) (A.den a x) := by
   have : pyNeg a = pyRmul (-1) a := by
@@ -295,7 +353,7 @@ theorem pyNeg_den (a r : Op) (ha : WFtop a) (hai : A.LazyInvertible a) (hns : a.
     | cont u k td ops => cases k <;> simp_all [pyNeg, isAdd, isContCls]
     | _ => rfl
   rw [this] at h
-  exact A.pyRmul_den (-1) a r ha hai h
+  exact A.pyRmul_den (-1) a r ha has hai h
 
 theorem foldr_add_append (l1 l2 : List V) :
     (l1 ++ l2).foldr A.add A.zero = A.add (l1.foldr A.add A.zero) (l2.foldr A.add A.zero) := by
